@@ -114,3 +114,23 @@ Theorem C05_deterministic :
   to_core_claim O (with_ctx c (Some ts)) caller = to_core_claim O (with_ctx c (Some ts')) caller.
 Proof. exact deterministic. Qed.
 Print Assumptions C05_deterministic.
+
+(* expiration = Unix seconds of the instant vc.Expiration denotes: the fraction of
+   a second ([gt_nanos]) never reaches the claim (it is dropped, not rounded), and
+   the expiration flag is set *)
+Theorem C05_expiration_seconds :
+  forall O mz subj ctx caller t t',
+  gt_sec t = gt_sec t' ->
+  to_core_claim O (cred_at mz subj (Some t) ctx) caller =
+  to_core_claim O (cred_at mz subj (Some t') ctx) caller.
+Proof. exact expiration_seconds. Qed.
+Print Assumptions C05_expiration_seconds.
+
+Theorem C05_expiration_layout :
+  forall O mz subj ctx caller t cl,
+  0 <= o_nonce (eff_opts caller) < 2 ^ 64 -> 0 <= o_version (eff_opts caller) < 2 ^ 32 ->
+  fst (to_core_claim O (cred_at mz subj (Some t) ctx) caller) = Ok cl ->
+  v0 cl = o_nonce (eff_opts caller) + 2 ^ 64 * (gt_sec t mod 2 ^ 64) /\
+  get_field (i0 cl) 131 1 = 1.
+Proof. exact expiration_layout. Qed.
+Print Assumptions C05_expiration_layout.
